@@ -228,7 +228,7 @@ CHECKS = {
 EXTRA = {
     "C01": "R01.6 StyledPixelsIterator::next of the triangle returns None only on paths on which lines_iter.next() is exhausted (found and fixed a defect). R01.5 every path of Image::draw / SubImage drawing passes through the one draw call of the wrapped image on the target translated by the offset (must-pass-through on path summaries).",
     "C03": "R03.8 Translated, ColorConverted and Cropped forward every call: on every path of draw_iter / fill_contiguous / fill_solid / clear the parent's method of the same name is called once on self.parent and its outcome returned (must-pass-through). R03.9 iterator::contiguous::Cropped::new discards exactly S = crop.y * size.width + crop.x source colours (nth(S - 1) under 0 < S, nothing under S = 0).",
-    "C05": "R05.4 also: a row of the ellipse / rounded rectangle is given up only after an exhausted column search (no second, shortcut membership test).",
+    "C05": "R05.4 also: a row of the ellipse / rounded rectangle is given up only after an exhausted column search (no second, shortcut membership test). R05.5 a corner row of the rounded rectangle in which the corner search accepts no column starts / ends at the corner's own box edge, never at the rectangle's first / last column (contains() rejects the corner's columns of such a row). R05.6 rounded_rectangle::Points::next ends only when the scanline source is exhausted, not at an empty scanline.",
     "C07": "R07.5 on every path of Polyline::bounding_box the result is the documented empty box or every use of the vertex slice has self.translate added.",
     "C14": "R14.5 builder integrity: every MonoTextStyleBuilder method that returns the builder keeps each style field in place unless it sets it from its arguments or a constant; no field receives a different field of the incoming style; From<&Style> carries every field.",
     "C15": "R15.6 builder integrity of TextStyleBuilder (as R14.5). R15.7 sibling agreement: the font constants of one name carry the same metrics (size, spacing, baseline, underline, strikethrough) in every glyph subset.",
